@@ -32,8 +32,9 @@ CLAIMED = {
    ref='DESIGN 6 C15'),
  'C16': dict(
    text='Coq theorems about the hand-written model of decode.c: base64_decode = RFC 4648 spec for every byte string, '
-        'target bound branches unreachable, QP inverts every QP rendering and never fails, RFC 2047 total / raw on malformed '
-        '(full factorisation theorem not proved: partial for that decoder). Model tied to the code by a differential run of the '
+        'target bound branches unreachable, QP inverts every QP rendering and never fails, RFC 2047 total / raw on malformed, '
+        'and on every value that is a sequence of plain text and well-formed decodable encoded words the result is the text and the decoded words in order with the white space '
+        'between two adjacent encoded words dropped (C16_2047_items). Model tied to the code by a differential run of the '
         'extracted model against decode.c (exhaustive <=4/<=6 over the 14-symbol alphabet + structured random, plain and ASan/UBSan builds).',
    note='Trusted: Coq kernel, gen_tables.py (Base64 alphabet, Pad64), ExtrOcamlBasic extraction, decode.h driver, C-locale ctype. '
         'Control flow of decode.c is modelled by hand and tied only by correspondence.',
@@ -121,12 +122,12 @@ CLAIMED = {
    text='Coq theorems about interaction-tree models of maildir_move (rename and EXDEV copy paths, maildir or stdin source), maildir_write (label / add-header), '
         'message_write and discard over an abstract file system (names -> inodes -> empty/partial/complete + durable): for a single failing outcome at ANY call '
         'index the message exists exactly once intact with no stray left, a failure at a reported site gives a non-zero status, status 0 implies final place and '
-        'content; two faults never lose the message. Proved by vm_compute sweeps over the finite scenario space lifted to all indices (run_ext). The clause '
+        'content; two faults never lose the message; lifted to a whole run: the messages are handled one after the other with running call numbers and whichever call of '
+        'whichever message fails, every message satisfies these clauses (C01_whole_run). Proved by vm_compute sweeps over the finite scenario space lifted to all indices (run_ext). The clause '
         '"every failure is reported" is restricted to reported sites; tolerated sites are refuted by witness and pinned as F-15. Tied by enumerating every call '
         'index x failure of interposed runs of the binary, normalising the action phase to the model vocabulary (model must issue the same calls) and judging the final tree.',
    note='Trusted: shim/libvfio.so (fault semantics: failing call has no effect; close/fclose release; failing stdio writes leave partial data), trace normaliser, '
-        'the abstraction of all fprintf calls of message_write into one Write op and of EEXIST retries into one Creat. Lifting over several messages/actions is by '
-        'construction (disjoint names), exercised by multi-message scenarios through the monitor only. Defects F-01, F-04 repaired by fix: commits.',
+        'the abstraction of all fprintf calls of message_write into one Write op and of EEXIST retries into one Creat. Several messages are lifted by theorem (sequential jobs over disjoint names); several actions on one message by the per-action versions only. Defects F-01, F-04 repaired by fix: commits.',
    technique='Coq proof (finite sweeps over interaction trees lifted by an oracle-extensionality lemma) + exhaustive single-fault enumeration against the binary',
    ref='DESIGN 6 C01'),
  'C02': dict(
@@ -158,11 +159,11 @@ CLAIMED = {
    text='PARTIAL. Proved in Coq about the faithful model of expr.c/match.c (flat match list with sentinels, pattern entries, pending actions, pass/break markers, '
         'matches_merge, neg clearing the list): every condition evaluates to its boolean formula whatever is short-circuited or pending; for ARBITRARILY NESTED blocks of '
         'rules with plain action lists (any conditions) run_rules equals the documented semantics spec_run: a nested block is entered only if its condition holds and the '
-        'first rule matching in depth-first order wins with exactly its actions; for FLAT blocks whose action lists may end with pass or break (conditions without '
-        'negation) the actions other than move / flag performed are exactly those of the documented semantics (pass keeps and continues, break abandons). The general '
+        'first rule matching in depth-first order wins with exactly its actions; for FLAT blocks whose action lists may end with pass or break (any conditions) the '
+        'actions other than move / flag performed are exactly those of the documented semantics (pass keeps and continues, break abandons). The general '
         'statement (pass / break inside nested blocks, on "clean" evaluations) is stated but NOT proved: it is checked bounded-exhaustively and randomly against the '
         'documented semantics (spec_run) by the harness. '
-        'Known findings with witness lemmas: T1/T2 (pinned), T3=F-02, F-21 location merge. Tied by comparing the action list mdsort -d prints, in order, and the '
+        'Known findings with witness lemmas: T1/T2 (pinned), F-21 location merge; F-02 (a failed negation cleared the whole list) repaired by a fix: commit. Tied by comparing the action list mdsort -d prints, in order, and the '
         'final tree of a real run with the extracted evaluator on all 8 truth assignments per generated tree.',
    note='The parser shape (left-nested OR chain, MATCH sentinel, AND chain of actions, and/or equal precedence left-associative, ! tighter) is modelled by hand '
         '(compile) and tied only by correspondence. EXPR_ERROR propagation, attachment conditions/blocks and plain matchers are outside this check (C11/C13/C04).',
@@ -176,8 +177,9 @@ CLAIMED = {
         'Tied by (a) message_get_body / message_get_attachments vs the extracted model on generated MIME texts incl. malformed structure, (b) generated well-formed '
         'trees with ground truth: number and pre-order of parts, every part\'s decoded body, the depth limit, the text/plain preference, (c) the binary with body / '
         'attachment body / attachment header rules, attachment blocks and exec stdin body, judged by platform regexec over the decoded content and by a recording helper.',
-   note='NOT proved: the flattening theorem (the part list of a rendered tree is the pre-order list of its parts); that direction is covered by the ground-truth '
-        'monitor only. Charset conversion does not exist in mdsort and is not part of the property.',
+   note='Boundary scanning is proved: on every body in RFC 2046 form in which no other line is a delimiter line of the boundary the part loop returns exactly the part texts in '
+        'order and sees the terminator (C11_parts_of_body), and one level of flattening given what each part parses to (C11_flatten_step). NOT proved: the closed form over whole '
+        'rendered trees (needs the header round trip of every part); that is covered by the ground-truth monitor only. Charset conversion does not exist in mdsort and is not part of the property.',
    technique='Coq proof (case analysis over the body-selection and decoding functions, induction over the part list) + differential runs against generated MIME trees with ground truth',
    ref='DESIGN 6 C11'),
  'C12': dict(
